@@ -22,9 +22,9 @@ import (
 var ctx = context.Background()
 
 const (
-	nKeys  = 6 // keys 0..5
-	nVals  = 6 // values 0..5
-	nInner = 8 // Join: inner vars 0..7
+	nKeys  = 6  // keys 0..5
+	nVals  = 6  // values 0..5
+	nInner = 16 // Join: inner vars 0..7, computed inner nodes 8..15
 )
 
 // ---------------------------------------------------------------- observables
@@ -235,6 +235,8 @@ func (e edit) String() string {
 		return fmt.Sprintf("%s(%d)", e.Kind, e.K)
 	case "inner":
 		return fmt.Sprintf("inner%d.Set(%d)", e.K, e.V)
+	case "base":
+		return fmt.Sprintf("base%d.Set(%d)", e.K, e.V)
 	}
 	return e.Kind
 }
@@ -1025,13 +1027,84 @@ func genSelector(r *hx.Rand, episodes int, rep *hx.Report) []edit {
 
 // ---------------------------------------------------------------- Join
 
+// Inner incrementals of the Join stream: ids 0..7 are vars (start value id+1); ids 8..15 are
+// computed nodes over two shared base vars, value a*base0 + b*base1 + c.  "eager" nodes are
+// observed directly from the start (necessary and computed whatever the join does); "lazy"
+// ones are only necessary while the join links them.  Nodes built from two maps sit at height 2,
+// above the join node's initial height.
+type cdefT struct {
+	lazy    bool
+	a, b, c int
+	height  int
+	build   func(g *incr.Graph, b0, b1 incr.Incr[int], ran func()) incr.Incr[int]
+}
+
+// ran is called whenever the node recomputes (nil for the lower half of a two-level node)
+func lin1(g *incr.Graph, in incr.Incr[int], m, c int, ran func()) incr.Incr[int] {
+	return incr.Map(g, in, func(x int) int {
+		if ran != nil {
+			ran()
+		}
+		return m*x + c
+	})
+}
+
+func lin2(g *incr.Graph, b0, b1 incr.Incr[int], a, b, c int, ran func()) incr.Incr[int] {
+	return incr.Map2(g, b0, b1, func(x, y int) int {
+		ran()
+		return a*x + b*y + c
+	})
+}
+
+const nVarInner = 8
+
+var cdefs = []cdefT{
+	{false, 1, 0, 10, 1, func(g *incr.Graph, b0, b1 incr.Incr[int], ran func()) incr.Incr[int] { return lin1(g, b0, 1, 10, ran) }},
+	{false, 1, 1, 20, 1, func(g *incr.Graph, b0, b1 incr.Incr[int], ran func()) incr.Incr[int] {
+		return lin2(g, b0, b1, 1, 1, 20, ran)
+	}},
+	{false, 0, 2, 30, 2, func(g *incr.Graph, b0, b1 incr.Incr[int], ran func()) incr.Incr[int] {
+		return lin1(g, lin1(g, b1, 2, 0, nil), 1, 30, ran)
+	}},
+	{false, 2, 3, 40, 1, func(g *incr.Graph, b0, b1 incr.Incr[int], ran func()) incr.Incr[int] {
+		return lin2(g, b0, b1, 2, 3, 40, ran)
+	}},
+	{true, 3, 0, 50, 1, func(g *incr.Graph, b0, b1 incr.Incr[int], ran func()) incr.Incr[int] { return lin1(g, b0, 3, 50, ran) }},
+	{true, 1, 2, 60, 1, func(g *incr.Graph, b0, b1 incr.Incr[int], ran func()) incr.Incr[int] {
+		return lin2(g, b0, b1, 1, 2, 60, ran)
+	}},
+	{true, 5, 0, 70, 2, func(g *incr.Graph, b0, b1 incr.Incr[int], ran func()) incr.Incr[int] {
+		return lin1(g, lin1(g, b0, 5, 0, nil), 1, 70, ran)
+	}},
+	{false, 0, 1, 80, 1, func(g *incr.Graph, b0, b1 incr.Incr[int], ran func()) incr.Incr[int] { return lin1(g, b1, 1, 80, ran) }},
+}
+
+func isComputed(x int) bool { return x >= nVarInner }
+
+// dependsOn: does computed node x read base var i
+func dependsOn(x, i int) bool {
+	d := cdefs[x-nVarInner]
+	if i == 0 {
+		return d.a != 0
+	}
+	return d.b != 0
+}
+
+func cdefsCoq() string {
+	parts := make([]string, len(cdefs))
+	for i, d := range cdefs {
+		parts[i] = fmt.Sprintf("(%d, Join.CDef %s %d %d %d)", nVarInner+i, hx.Bool(d.lazy), d.a, d.b, d.c)
+	}
+	return "[" + strings.Join(parts, "; ") + "]"
+}
+
 type joinResult struct {
 	steps []selStep
 	vals0 []entry
 	fail  *failure
 	// features of the history, for classifying a failure
 	sharedInner bool // one inner node under two keys of the same outer map
-	movedInner  bool // one inner node under different keys in different versions of the outer map
+	movedInner  bool // one inner node under different keys in two consecutive versions the join read
 	unobserved  bool
 }
 
@@ -1060,48 +1133,63 @@ func hasShared(m map[int]int) bool {
 	return false
 }
 
-func runJoin(edits []edit) joinResult {
+// runJoin drives the real mapi.Join.  rep is nil for the runs of the shrinker.
+func runJoin(edits []edit, rep *hx.Report) joinResult {
 	var res joinResult
+	count := func(k string) {
+		if rep != nil {
+			rep.Count(k)
+		}
+	}
 	g := incr.New()
-	inner := make([]incr.VarIncr[int], nInner)
+	inner := make([]incr.Incr[int], nInner)
+	vars := make([]incr.VarIncr[int], nVarInner)
 	vals := map[int]int{}
-	for x := range inner {
-		inner[x] = incr.Var(g, x+1)
+	for x := range vars {
+		vars[x] = incr.Var(g, x+1)
+		inner[x] = vars[x]
 		vals[x] = x + 1
 	}
 	res.vals0 = sortedEntries(vals)
+	base := []incr.VarIncr[int]{incr.Var(g, 1), incr.Var(g, 2)}
+	// the engine's scheduling is observed, not predicted: a computed node that recomputes notes
+	// whether the join has already run in this pass
+	var joinNode incr.INode
+	var joinRunsAtStart uint64
+	var early []int64
+	lateRuns := 0
+	for i, d := range cdefs {
+		id := nVarInner + i
+		inner[id] = d.build(g, base[0], base[1], func() {
+			if incr.ExpertNode(joinNode).NumRecomputes() == joinRunsAtStart {
+				early = append(early, int64(id))
+			} else {
+				lateRuns++
+			}
+		})
+		if !d.lazy {
+			incr.MustObserve(g, inner[nVarInner+i]) // another consumer: necessary and computed without the join
+		}
+	}
 	outer := incr.Var(g, pmap.New[int, incr.Incr[int]]())
 	j := mapi.Join(g, outer)
+	joinNode = j
 	cur := map[int]int{} // key -> inner index
 	o := incr.MustObserve(g, j)
 	observed := true
 	emit := func(ev string, ob *obs) { res.steps = append(res.steps, selStep{ev, ob}) }
 	emit("JvObserve", nil)
-	earlier := map[int]map[int]bool{} // inner -> keys it sat under in earlier versions
+	read := map[int]int{} // the outer map as of the join's last recompute
+	baseWritten := map[int]bool{}
+	var fresh []int // computed nodes this pass links anew while their input changed
 	outerSet := func() {
 		emit(fmt.Sprintf("JvSetOuter %s", entriesCoq(sortedEntries(cur))), nil)
-		if hasShared(cur) {
-			res.sharedInner = true
-		}
-		for k, x := range cur {
-			for k0 := range earlier[x] {
-				if k0 != k {
-					res.movedInner = true
-				}
-			}
-		}
-		for k, x := range cur {
-			if earlier[x] == nil {
-				earlier[x] = map[int]bool{}
-			}
-			earlier[x][k] = true
-		}
 	}
 	for i, ed := range edits {
 		switch ed.Kind {
 		case "set": // V is an inner index
 			cur[ed.K] = ed.V
-			outer.Set(outer.Value().Set(ed.K, incr.Incr[int](inner[ed.V])))
+			outer.Set(outer.Value().Set(ed.K, inner[ed.V]))
 			outerSet()
 		case "del":
 			delete(cur, ed.K)
@@ -1111,14 +1199,17 @@ func runJoin(edits []edit) joinResult {
 			cur = cloneMap(ed.M)
 			m := pmap.New[int, incr.Incr[int]]()
 			for _, en := range sortedEntries(cur) {
-				m = m.Set(en.K, incr.Incr[int](inner[en.V]))
+				m = m.Set(en.K, inner[en.V])
 			}
 			outer.Set(m)
 			outerSet()
 		case "inner":
-			vals[ed.K] = ed.V
-			inner[ed.K].Set(ed.V)
+			vars[ed.K].Set(ed.V)
 			emit(fmt.Sprintf("JvSetInner %d %d", ed.K, ed.V), nil)
+		case "base":
+			base[ed.K].Set(ed.V)
+			baseWritten[ed.K] = true
+			emit(fmt.Sprintf("JvSetBase %d %d", ed.K, ed.V), nil)
 		case "unobs":
 			if observed {
 				o.Unobserve(ctx)
@@ -1133,16 +1224,89 @@ func runJoin(edits []edit) joinResult {
 				emit("JvObserve", nil)
 			}
 		case "pass":
+			fresh = nil
+			if observed {
+				// what this pass asks of the join, for the histogram and the failure classes
+				if hasShared(cur) {
+					res.sharedInner = true
+				}
+				for k, x := range cur {
+					for k0, x0 := range read {
+						if x0 == x && k0 != k {
+							res.movedInner = true
+						}
+					}
+					if !isComputed(x) {
+						if x0, ok := read[k]; ok && x0 != x && isComputed(x0) {
+							count("join-pass:key-repointed-computed-to-var")
+						}
+						continue
+					}
+					written := (baseWritten[0] && dependsOn(x, 0)) || (baseWritten[1] && dependsOn(x, 1))
+					x0, had := read[k]
+					switch {
+					case had && x0 == x && written:
+						count("join-pass:linked-computed-node-recomputes")
+					case (!had || x0 != x) && written:
+						count("join-pass:NEWLY-LINKED-computed-node-whose-input-changed-in-the-same-pass")
+						fresh = append(fresh, x)
+						d := cdefs[x-nVarInner]
+						if d.lazy {
+							count("join-pass:newly-linked+input-changed:lazy-node")
+						} else {
+							count("join-pass:newly-linked+input-changed:node-observed-elsewhere")
+						}
+						if d.height > 1 {
+							count("join-pass:newly-linked+input-changed:node-above-the-join")
+						}
+						if had && !isComputed(x0) {
+							count("join-pass:newly-linked+input-changed:key-repointed-from-a-var")
+						}
+					case !had || x0 != x:
+						count("join-pass:newly-linked-computed-node-input-unchanged")
+					}
+				}
+			}
+			joinRunsAtStart, early, lateRuns = incr.ExpertNode(j).NumRecomputes(), nil, 0
 			if err := stabilize(g); err != nil {
 				res.fail = &failure{pass: i, what: "Stabilize failed: " + err.Error()}
 				return res
 			}
+			baseWritten = map[int]bool{}
 			got := obs{pmEntries(j.Value())}
-			emit("JvPass", &got)
+			sort.Slice(early, func(a, b int) bool { return early[a] < early[b] })
+			emit("JvPass "+hx.ZList(early), &got)
 			if observed {
+				for _, x := range fresh {
+					wasEarly := false
+					for _, e := range early {
+						if int(e) == x {
+							wasEarly = true
+						}
+					}
+					if wasEarly {
+						count("join-pass:newly-linked+input-changed:node-recomputed-BEFORE-the-join's-first-run")
+					} else {
+						count("join-pass:newly-linked+input-changed:node-recomputed-AFTER-the-join's-first-run(second-run-needed)")
+					}
+				}
+				switch runs := incr.ExpertNode(j).NumRecomputes() - joinRunsAtStart; {
+				case runs >= 2:
+					count("join-pass:join-ran-twice")
+					if lateRuns > 0 {
+						count("join-pass:join-ran-twice-with-a-computed-node-in-between-or-after")
+					}
+				case runs == 1:
+					count("join-pass:join-ran-once")
+				default:
+					count("join-pass:join-did-not-run")
+				}
+			}
+			if observed {
+				read = cloneMap(cur)
 				want := map[int]int{}
 				for k, x := range cur {
-					want[k] = vals[x]
+					want[k] = inner[x].Value() // the oracle: read every inner incremental
 				}
 				w1 := obs{sortedEntries(want)}
 				if !obsEq(got, w1) {
@@ -1155,39 +1319,69 @@ func runJoin(edits []edit) joinResult {
 	return res
 }
 
+var joinAssignments = []string{"key-consistent", "migrating", "injective", "free"}
+
 // genJoin: mode bit 0 allows unobserve/observe episodes; mode/2 says how inner nodes are assigned:
-// 0 key-consistent (key k in 0..3 only ever holds inner node k or k+4), 1 injective (any node under
-// any key, never two keys at once, so nodes can MOVE between keys), 2 free (a node can also be under
-// two keys at once).
+// 0 key-consistent (key k in 0..3 only ever holds inner nodes k, k+4, k+8, k+12);
+// 1 migrating (any node under any key, one key at a time, and a node changes key only with a
+// recompute of the join in between: shared between keys over time, never at once);
+// 2 injective (as 1, but a node may move between keys within one pass);
+// 3 free (a node can also be under two keys at once).
 func genJoin(r *hx.Rand, episodes, mode int, rep *hx.Report) []edit {
 	var out []edit
 	assign := mode / 2
 	cur := map[int]int{}
+	read := map[int]int{} // the outer map at the last pass with the join observed
+	observed := true
 	pickKey := func() int {
 		if assign == 0 {
 			return r.Intn(4)
 		}
 		return r.Intn(nKeys)
 	}
-	pick := func(key int) int {
+	allowed := func(key, x int) bool {
 		switch assign {
 		case 0:
-			return key + 4*r.Intn(2)
-		case 2:
-			return r.Intn(nInner)
+			return x%4 == key
+		case 3:
+			return true
 		}
-		for {
-			x := r.Intn(nInner) // nInner > nKeys, so a free node always exists
-			used := false
-			for k, y := range cur {
+		for k, y := range cur {
+			if y == x && k != key {
+				return false
+			}
+		}
+		if assign == 1 {
+			for k, y := range read {
 				if y == x && k != key {
-					used = true
+					return false
 				}
 			}
-			if !used {
+		}
+		return true
+	}
+	// pick an inner node for a key: computed nodes half of the time
+	pick := func(key int, computed bool) int {
+		for tries := 0; tries < 200; tries++ {
+			x := r.Intn(nVarInner)
+			if computed {
+				x = nVarInner + r.Intn(len(cdefs))
+			}
+			if allowed(key, x) {
 				return x
 			}
+			if tries > 50 {
+				computed = !computed
+			}
 		}
+		return -1
+	}
+	bind := func(key, x int) {
+		if x < 0 {
+			return
+		}
+		cur[key] = x
+		out = append(out, edit{Kind: "set", K: key, V: x})
 	}
 	outerEdit := func() {
 		key := pickKey()
@@ -1196,42 +1390,86 @@ func genJoin(r *hx.Rand, episodes, mode int, rep *hx.Report) []edit {
 			out = append(out, edit{Kind: "del", K: key})
 			return
 		}
-		x := pick(key)
-		cur[key] = x
-		out = append(out, edit{Kind: "set", K: key, V: x})
+		bind(key, pick(key, r.Chance(1, 2)))
 	}
 	rebuild := func() {
 		cur = map[int]int{}
 		for k := 0; k < nKeys; k++ {
 			if (assign != 0 || k < 4) && r.Chance(1, 2) {
-				cur[k] = pick(k)
+				if x := pick(k, r.Chance(1, 2)); x >= 0 {
+					cur[k] = x
+				}
 			}
 		}
 		out = append(out, edit{Kind: "rebuild", M: cloneMap(cur)})
 	}
-	innerEdit := func() { out = append(out, edit{Kind: "inner", K: r.Intn(nInner), V: r.Intn(nVals)}) }
+	innerEdit := func() { out = append(out, edit{Kind: "inner", K: r.Intn(nVarInner), V: r.Intn(nVals)}) }
+	baseEdit := func(i int) { out = append(out, edit{Kind: "base", K: i, V: r.Intn(nVals)}) }
+	pass := func() {
+		out = append(out, edit{Kind: "pass"})
+		if observed {
+			read = cloneMap(cur)
+		}
+	}
+	// the episode the SetStale in link exists for: in ONE pass a key is added or repointed to a
+	// computed node and that node's input changes
+	linkAndWrite := func() {
+		key := pickKey()
+		x := pick(key, true)
+		if x < 0 || !isComputed(x) || cur[key] == x {
+			delete(cur, key) // make room, so that a later episode can link
+			out = append(out, edit{Kind: "del", K: key})
+			return
+		}
+		input := 0
+		if !dependsOn(x, 0) || (dependsOn(x, 1) && r.Chance(1, 2)) {
+			input = 1
+		}
+		if r.Chance(1, 2) {
+			baseEdit(input)
+			bind(key, x)
+		} else {
+			bind(key, x)
+			baseEdit(input)
+		}
+		if r.Chance(1, 3) {
+			innerEdit()
+		}
+	}
 	for ep := 0; ep < episodes; ep++ {
 		k := r.Intn(100)
 		switch {
-		case k < 20:
+		case k < 12:
 			rep.Count("episode:outer-edit")
 			outerEdit()
-		case k < 40:
-			rep.Count("episode:inner-write")
+		case k < 22:
+			rep.Count("episode:inner-var-write")
 			innerEdit()
-		case k < 60:
+		case k < 32:
+			rep.Count("episode:base-var-write")
+			baseEdit(r.Intn(2))
+		case k < 57:
+			rep.Count("episode:link-computed-node+write-its-input")
+			linkAndWrite()
+		case k < 72:
 			rep.Count("episode:many-keys")
 			for n := r.Range(2, 6); n > 0; n-- {
-				if r.Chance(1, 2) {
+				switch r.Intn(4) {
+				case 0, 1:
 					outerEdit()
-				} else {
+				case 2:
 					innerEdit()
+				default:
+					baseEdit(r.Intn(2))
 				}
 			}
-		case k < 70:
+		case k < 80:
 			rep.Count("episode:rebuilt-unrelated-map")
 			rebuild()
-		case k < 75 || mode&1 == 0:
+			if r.Chance(1, 2) {
+				baseEdit(r.Intn(2))
+			}
+		case k < 84 || mode&1 == 0:
 			rep.Count("episode:touch-or-nothing")
 		default:
 			rep.Count("episode:unobserve-edit-reobserve")
@@ -1239,19 +1477,23 @@ func genJoin(r *hx.Rand, episodes, mode int, rep *hx.Report) []edit {
 				innerEdit() // written while linked, never delivered
 			}
 			out = append(out, edit{Kind: "unobs"})
+			observed = false
 			for n := r.Range(0, 3); n > 0; n-- {
 				switch {
 				case r.Chance(1, 5):
-					out = append(out, edit{Kind: "pass"})
-				case r.Chance(1, 2):
+					pass()
+				case r.Chance(1, 3):
 					innerEdit()
+				case r.Chance(1, 2):
+					baseEdit(r.Intn(2))
 				default:
 					outerEdit()
 				}
 			}
 			out = append(out, edit{Kind: "obs"})
+			observed = true
 		}
-		out = append(out, edit{Kind: "pass"})
+		pass()
 	}
 	for _, e := range out {
 		rep.Count("edit:" + e.Kind)
@@ -1410,27 +1652,39 @@ func main() {
 	}
 
 	if enabled("Join") {
-		for i := 0; i < *count*3; i++ {
+		for i := 0; i < *count*4; i++ {
 			r := rng.Fork()
-			mode := i % 6
+			mode := i % 8
 			edits := genJoin(r, *episodes+4, mode, rep)
-			res := runJoin(edits)
+			res := runJoin(edits, rep)
 			rep.Evaluations++
 			rep.Count("op:Join")
-			rep.Count(fmt.Sprintf("join-mode:unobserve=%v,assignment=%s", mode&1 != 0, []string{"key-consistent", "injective", "free"}[mode/2]))
+			rep.Count(fmt.Sprintf("join-mode:unobserve=%v,assignment=%s", mode&1 != 0, joinAssignments[mode/2]))
 			rep.Count("oracle:plain-definition")
 			if res.fail != nil {
-				rep.Count(fmt.Sprintf("join-failing-histories:unobserve=%v,assignment=%s", mode&1 != 0, []string{"key-consistent", "injective", "free"}[mode/2]))
+				rep.Count(fmt.Sprintf("join-failing-histories:unobserve=%v,assignment=%s", mode&1 != 0, joinAssignments[mode/2]))
 				// a smaller history must not bring in a feature the original did not have
 				small := shrink(edits, func(es []edit) bool {
-					c := runJoin(es)
+					c := runJoin(es, nil)
 					return c.fail != nil && c.features()&^res.features() == 0
 				})
-				sres := runJoin(small)
+				sres := runJoin(small, nil)
 				f := sres.fail
 				key := "mapi:Join"
 				if sres.unobserved {
 					key += ":stale-after-relink"
+				}
+				for _, e := range small {
+					usesComputed := (e.Kind == "set" && isComputed(e.V)) || e.Kind == "base"
+					for _, x := range e.M {
+						if e.Kind == "rebuild" && isComputed(x) {
+							usesComputed = true
+						}
+					}
+					if usesComputed {
+						key += ":computed-inner"
+						break
+					}
 				}
 				if sres.sharedInner {
 					key += ":inner-under-two-keys"
@@ -1440,9 +1694,9 @@ func main() {
 				}
 				report(key, fmt.Sprintf("mapi.Join: %s: got %v want %v after %v (innerN starts at N+1)", f.what, f.got, f.want, joinStrings(small)),
 					map[string]any{"operator": "Join", "edits": small, "script": joinStrings(small), "got": f.got.String(), "want": f.want.String(),
-						"note": "inner vars inner0..inner7 start with values 1..8; the join is observed from the start; {k v} pairs are (key, value)"})
+						"note": "inner0..inner7 are vars starting at 1..8; inner8..inner15 are Map/Map2 nodes over base0 (starts 1) and base1 (starts 2) with value a*base0+b*base1+c, (lazy,a,b,c) = " + cdefsCoq() + "; the join is observed from the start; {k v} pairs are (key, value)"})
 			}
-			text := fmt.Sprintf("CJoin %s %s %s", hx.Bool(joinFixed), entriesCoq(res.vals0), evsCoq(res.steps))
+			text := fmt.Sprintf("CJoin %s %s [(0, 1); (1, 2)] %s %s", hx.Bool(joinFixed), entriesCoq(res.vals0), cdefsCoq(), evsCoq(res.steps))
 			passes := 0
 			for _, s := range res.steps {
 				if s.out != nil && len((*s.out)[0]) > 0 {
@@ -1460,7 +1714,7 @@ func main() {
 	}
 
 	rep.Distinct = len(distinct)
-	rep.Rule = fmt.Sprintf("%d random histories per operator kind (3x for Join: with/without unobserve episodes x key-consistent / injective / free assignment of inner nodes), %d+ episodes each (single edit, many keys per pass, "+
+	rep.Rule = fmt.Sprintf("%d random histories per operator kind (4x for Join: with/without unobserve episodes x key-consistent / migrating / injective / free assignment of inner nodes; inner nodes are vars and Map/Map2 nodes over two shared base vars, observed elsewhere or lazy, some above the join), %d+ episodes each (single edit, many keys per pass, "+
 		"rebuilt unrelated map, rebuilt identical map, touch, bounds change, unobserve/edit/re-observe with skipped passes) over keys 0..%d, values 0..%d; "+
 		"distinct by operator parameters + recorded recompute inputs/values; non-trivial = at least two recomputes whose input differs from the "+
 		"previous recompute's (Selector/Join: at least two passes with a non-empty value)", *count, *episodes, nKeys-1, nVals-1)
